@@ -477,13 +477,17 @@ pub fn grid(thorough: bool) -> Vec<CbCfg> {
                                     threshold: thr,
                                     min_calls: min,
                                     wait_ms: 30,
+                                    wait_shave_us: 0,
                                     permitted,
                                     slow_ms,
                                     slow_rate,
                                     custom_classifier: custom,
                                     fallback: false,
                                     fallback_gated: false,
-                classifier_first,
+                                    classifier_first,
+                                    // every third configuration starts from the fast_fail()
+                                    // preset and overrides every setting afterwards
+                                    preset_start: v.len() % 3 == 2,
                                 });
                             }
                         }
@@ -503,6 +507,7 @@ pub fn grid(thorough: bool) -> Vec<CbCfg> {
                 threshold: 0.5,
                 min_calls: None,
                 wait_ms: 1500,
+                wait_shave_us: 0,
                 permitted,
                 slow_ms: None,
                 slow_rate: 1.0,
@@ -510,6 +515,7 @@ pub fn grid(thorough: bool) -> Vec<CbCfg> {
                 fallback: false,
                 fallback_gated: false,
                 classifier_first: false,
+                preset_start: false,
             });
         }
     }
